@@ -429,6 +429,11 @@ class Encoder(object):
             self._side(n, z3.And(a >= -1, a <= 1), '|%s argument| <= 1: %s' % (name, T.show(args[0], 120)))
             if name == 'arccos':
                 self.axioms.append(z3.And(v >= 0, v <= pi))
+                self.axioms.append(z3.Implies(z3.And(a >= -1, a <= 1),
+                                              z3.And(z3.Implies(a == 1, v == 0), z3.Implies(a == -1, v == pi),
+                                                     z3.Implies(a == 0, 2 * v == pi),
+                                                     z3.Implies(a > 0, 2 * v < pi), z3.Implies(a < 0, 2 * v > pi))))
+                self._arccos_sum_axioms(n, v, a)
             else:
                 self.axioms.append(z3.And(v >= -pi / 2, v <= pi / 2))
         elif name in ('sinh',):
@@ -439,6 +444,34 @@ class Encoder(object):
         elif name in ('tanh',):
             self.axioms.append(z3.And(v > -1, v < 1))
         return v
+
+    def _arccos_sum_axioms(self, node, v, a):
+        """Exact algebraic characterisation of comparisons of sums of arccos atoms with pi
+        (cos is strictly decreasing on [0, pi]):
+           acos(x)+acos(y) < pi            <=>  x > -y
+           acos(x)+acos(y)+acos(z) < pi    <=>  x > -y  and  x y - sqrt(1-x^2) sqrt(1-y^2) > -z
+        instantiated for all pairs / triples of arccos atoms present."""
+        pi = self.var('PI')
+        lst = getattr(self, '_arccos_atoms', None)
+        if lst is None:
+            lst = self._arccos_atoms = []
+        sq = T.pw(T.sub(T.ONE, T.mul(node.args[1], node.args[1])), T.HALF)
+        s_ = self.tr(sq)
+        me = (v, a, s_)
+        inrng = lambda x: z3.And(x >= -1, x <= 1)
+        for (v2, a2, s2) in lst:
+            ok = z3.And(inrng(a), inrng(a2))
+            self.axioms.append(z3.Implies(ok, z3.And((v + v2 < pi) == (a > -a2), (v + v2 == pi) == (a == -a2))))
+        for i in range(len(lst)):
+            for j in range(i + 1, len(lst)):
+                (v2, a2, s2), (v3, a3, s3) = lst[i], lst[j]
+                ok = z3.And(inrng(a), inrng(a2), inrng(a3))
+                # all three orderings are equivalent; use (2,3) as the pair and `me' as the third
+                cos23 = a2 * a3 - s2 * s3
+                self.axioms.append(z3.Implies(ok, z3.And(
+                    (v + v2 + v3 < pi) == z3.And(a2 > -a3, cos23 > -a),
+                    (v + v2 + v3 > pi) == z3.Or(a2 < -a3, z3.And(a2 >= -a3, cos23 < -a)))))
+        lst.append(me)
 
     # ---- definedness
     def defined(self, t):
